@@ -103,3 +103,6 @@ from contracts.share import shared  # noqa: E402
 UNITS += shared("C05", "contracts.c04", 'ArgumentParser._load_env_vars')
 UNITS += shared("C05", "contracts.c11", 'Namespace.__init__', 'Namespace._parse_key')
 UNITS += shared("C05", "contracts.c04", "ArgumentParser.parse_env")
+
+from contracts.check_type import typehint_call_unit  # noqa: E402
+UNITS.append(typehint_call_unit("C05"))
